@@ -45,6 +45,36 @@ pub fn expand_self<T: VisitableMut + Clone>(input: &T, to: &Type) -> T {
                 visit_type_mut(self, i);
             }
         }
+        // `Self::N`, `Self::Assoc` -> `<To>::N`, `<To>::Assoc`
+        fn visit_type_path_mut(&mut self, i: &mut syn::TypePath) {
+            self.qualify(&mut i.qself, &mut i.path);
+            syn::visit_mut::visit_type_path_mut(self, i);
+        }
+        fn visit_expr_path_mut(&mut self, i: &mut syn::ExprPath) {
+            self.qualify(&mut i.qself, &mut i.path);
+            syn::visit_mut::visit_expr_path_mut(self, i);
+        }
+    }
+    impl ExpandSelfVisitor<'_> {
+        fn qualify(&self, qself: &mut Option<syn::QSelf>, path: &mut syn::Path) {
+            if qself.is_none()
+                && path.leading_colon.is_none()
+                && path.segments.len() > 1
+                && path.segments[0].ident == "Self"
+                && path.segments[0].arguments.is_none()
+            {
+                let rest = path.segments.iter().skip(1).cloned().collect();
+                path.segments = rest;
+                path.leading_colon = Some(Default::default());
+                *qself = Some(syn::QSelf {
+                    lt_token: Default::default(),
+                    ty: Box::new(self.to.clone()),
+                    position: 0,
+                    as_token: None,
+                    gt_token: Default::default(),
+                });
+            }
+        }
     }
     let mut input = input.clone();
     input.visit_mut(&mut ExpandSelfVisitor { to });
